@@ -5,6 +5,7 @@ import N0Verif.Props.C01
 import N0Verif.Proofs.XPathHistory
 import N0Verif.Proofs.XPathHidden
 import N0Verif.Proofs.XPathMiss
+import N0Verif.Proofs.XPathHiddenPop
 /-!
 # C05 — delete and pop remove exactly the addressed node
 
@@ -632,5 +633,135 @@ example : delete 40 exHidden ['/', '/', 'h', '[', '1', ']', '/', 'z', 'z'] false
 example : pop 40 exHidden ['/', '/', 'h', '[', '1', ']', '/', 'x', '/', 'z', 'z'] (.int 7) true = .ok (exHidden, .int 7) :=
   ((C05_miss_canonical .n0 _ [.key ['h'], .idx 1, .key ['x']] ['z', 'z'] _ (.int 7) true ⟨pk 'h', pk 'x', trivial⟩
     ⟨by decide, by decide, by decide⟩ rfl 40 (by decide)).2 ⟨rfl, rfl⟩).2.1
+
+/-! ### pop and recursive delete through a hidden spelling (worker `c05hidden`) -/
+
+/-- **C05 (pop through a hidden list).**  `d.pop('//…q…/name[e]', d, recursively)`, `e` any spelling of `0` or `-1`, on the
+single value `old` of `name` returns `old` — the value lookup returns for that spelling — and yields the tree `delete`
+yields: `delAt` of the real position for `recursively=False`, `pruneUp` of it over the real ancestors for
+`recursively=True`.  The default `d` is not used. -/
+theorem C05_pop_hidden_list (cls : Cls) (kvs : List (Str × Val)) (q : Pos) (kcls : Cls) (nkvs : List (Str × Val))
+    (name : Str) (old d : Val) (e : IdxSp) (fuel : Nat)
+    (hp : PlainPos q) (hget : getAt (.dict cls kvs) q = some (.dict kcls nkvs)) (hn : PlainKey name)
+    (hl : lookup name nkvs = some old) (hs : isList old = false) (he : e.val = 0 ∨ e.val = -1)
+    (hf : fuel ≥ 2 * q.length + 2) :
+    ∃ t', delAt (.dict cls kvs) (q ++ [.key name]) = some t' ∧
+      getItem fuel (.dict cls kvs) (slash ++ renderPos q ++ slash ++ (name ++ bracket e.text)) = (.dict cls kvs, .ok old) ∧
+      pop fuel (.dict cls kvs) (slash ++ renderPos q ++ slash ++ (name ++ bracket e.text)) d false = .ok (t', old) ∧
+      pop fuel (.dict cls kvs) (slash ++ renderPos q ++ slash ++ (name ++ bracket e.text)) d true
+        = .ok (pruneUp t' q q.length, old) ∧
+      (∀ r, (delete fuel (.dict cls kvs) (slash ++ renderPos q ++ slash ++ (name ++ bracket e.text)) r).2 = .ok () ∧
+        pop fuel (.dict cls kvs) (slash ++ renderPos q ++ slash ++ (name ++ bracket e.text)) d r
+          = .ok ((delete fuel (.dict cls kvs) (slash ++ renderPos q ++ slash ++ (name ++ bracket e.text)) r).1, old)) := by
+  have hP : getAt (.dict cls kvs) (q ++ [Seg.key name]) = some old := by
+    rw [getAt_snoc, hget]; simp [child, hl]
+  obtain ⟨t', ht'⟩ := delAt_isSome (q ++ [.key name]) _ old (by simp) hP
+  refine ⟨t', ht', getItem_hidden cls kvs q kcls nkvs name old e fuel hp hget hn hl hs he hf,
+    pop_hidden cls kvs q kcls nkvs name old d e t' fuel false hp hget hn hl hs he ht' hf,
+    pop_hidden cls kvs q kcls nkvs name old d e t' fuel true hp hget hn hl hs he ht' hf, ?_⟩
+  intro r
+  rw [pop_hidden cls kvs q kcls nkvs name old d e t' fuel r hp hget hn hl hs he ht' hf]
+  cases r with
+  | false => rw [delete_hidden cls kvs q kcls nkvs name old e t' fuel hp hget hn hl hs he ht' hf]; exact ⟨rfl, rfl⟩
+  | true => rw [delete_rec_hidden cls kvs q kcls nkvs name old e t' fuel hp hget hn hl hs he ht' hf]; exact ⟨rfl, rfl⟩
+
+/-- **C05 (recursive delete through a hidden list).**  `d.delete('//…q…/name[e]', recursively=True)`, `e` any spelling of
+`0` or `-1`, on the single value of `name`: `name` is removed, then the real ancestors that became empty dictionaries,
+deepest first (`pruneUp` over the position `q` of the parent) — exactly the result of the canonical path `//…q…/name`. -/
+theorem C05_delete_rec_hidden_list (cls : Cls) (kvs : List (Str × Val)) (q : Pos) (kcls : Cls) (nkvs : List (Str × Val))
+    (name : Str) (old : Val) (e : IdxSp) (fuel : Nat)
+    (hp : PlainPos q) (hget : getAt (.dict cls kvs) q = some (.dict kcls nkvs)) (hn : PlainKey name)
+    (hl : lookup name nkvs = some old) (hs : isList old = false) (he : e.val = 0 ∨ e.val = -1)
+    (hf : fuel ≥ 2 * q.length + 2) :
+    ∃ t', delAt (.dict cls kvs) (q ++ [.key name]) = some t' ∧
+      delete fuel (.dict cls kvs) (slash ++ renderPos q ++ slash ++ (name ++ bracket e.text)) true
+        = (pruneUp t' q q.length, .ok ()) ∧
+      delete fuel (.dict cls kvs) (slash ++ renderPos q ++ slash ++ (name ++ bracket e.text)) true
+        = delete fuel (.dict cls kvs) (slash ++ renderPos (q ++ [.key name])) true := by
+  have hP : getAt (.dict cls kvs) (q ++ [Seg.key name]) = some old := by
+    rw [getAt_snoc, hget]; simp [child, hl]
+  obtain ⟨t', ht'⟩ := delAt_isSome (q ++ [.key name]) _ old (by simp) hP
+  exact ⟨t', ht', delete_rec_hidden cls kvs q kcls nkvs name old e t' fuel hp hget hn hl hs he ht' hf,
+    delete_rec_hidden_eq_canonical cls kvs q kcls nkvs name old e fuel hp hget hn hl hs he hf⟩
+
+/-- non-vacuity on `exHidden`: `//o/p/q[last()]` (the single value `1` of `q`, two dict ancestors that become empty) -/
+example : slash ++ renderPos [.key ['o'], .key ['p']] ++ slash ++ (['q'] ++ bracket IdxSp.last.text)
+    = ['/', '/', 'o', '/', 'p', '/', 'q', '[', 'l', 'a', 's', 't', '(', ')', ']'] := by decide
+example : ∃ t', delAt exHidden [.key ['o'], .key ['p'], .key ['q']] = some t' ∧
+    delete 40 exHidden ['/', '/', 'o', '/', 'p', '/', 'q', '[', 'l', 'a', 's', 't', '(', ')', ']'] true
+      = (pruneUp t' [.key ['o'], .key ['p']] 2, .ok ()) ∧
+    delete 40 exHidden ['/', '/', 'o', '/', 'p', '/', 'q', '[', 'l', 'a', 's', 't', '(', ')', ']'] true
+      = delete 40 exHidden ['/', '/', 'o', '/', 'p', '/', 'q'] true :=
+  C05_delete_rec_hidden_list .n0 _ [.key ['o'], .key ['p']] .n0 _ ['q'] (.int 1) .last 40 ⟨pk 'o', pk 'p', trivial⟩ rfl (pk 'q')
+    (by decide) rfl (Or.inr rfl) (by decide)
+example : pruneUp (.dict .n0 [(['a'], .int 1), (['o'], .dict .n0 [(['p'], .dict .n0 [])]),
+      (['h'], .list .n0 [.int 1, .dict .n0 [(['x'], .int 1)], .dict .n0 []])]) [.key ['o'], .key ['p']] 2
+    = .dict .n0 [(['a'], .int 1), (['h'], .list .n0 [.int 1, .dict .n0 [(['x'], .int 1)], .dict .n0 []])] := by decide
+example : ∃ t', delAt exHidden [.key ['o'], .key ['p'], .key ['q']] = some t' ∧
+    getItem 40 exHidden ['/', '/', 'o', '/', 'p', '/', 'q', '[', '0', ']'] = (exHidden, .ok (.int 1)) ∧
+    pop 40 exHidden ['/', '/', 'o', '/', 'p', '/', 'q', '[', '0', ']'] (.str ['D']) false = .ok (t', .int 1) ∧
+    pop 40 exHidden ['/', '/', 'o', '/', 'p', '/', 'q', '[', '0', ']'] (.str ['D']) true
+      = .ok (pruneUp t' [.key ['o'], .key ['p']] 2, .int 1) :=
+  let ⟨t', h1, h2, h3, h4, _⟩ := C05_pop_hidden_list .n0 _ [.key ['o'], .key ['p']] .n0 _ ['q'] (.int 1) (.str ['D']) (.lit 0) 40
+    ⟨pk 'o', pk 'p', trivial⟩ rfl (pk 'q') (by decide) rfl (Or.inl rfl) (by decide)
+  ⟨t', h1, h2, h3, h4⟩
+/-- the same instances evaluated (compared with the real code: `pop('//o/p/q[0]', 'D', recursively=True)` returns `1` and
+leaves `{a: 1, h: [...]}`; with `recursively=False` it leaves `o: {p: {}}`) -/
+example : pop 40 exHidden ['/', '/', 'o', '/', 'p', '/', 'q', '[', '0', ']'] (.str ['D']) true
+      = .ok (.dict .n0 [(['a'], .int 1), (['h'], .list .n0 [.int 1, .dict .n0 [(['x'], .int 1)], .dict .n0 []])], .int 1) ∧
+    pop 40 exHidden ['/', '/', 'o', '/', 'p', '/', 'q', '[', '0', ']'] (.str ['D']) false
+      = .ok (.dict .n0 [(['a'], .int 1), (['o'], .dict .n0 [(['p'], .dict .n0 [])]),
+          (['h'], .list .n0 [.int 1, .dict .n0 [(['x'], .int 1)], .dict .n0 []])], .int 1) := by decide
+
+/-- **C05 (hidden list around an ELEMENT of a list).**  `…h[i][e]`, `e` any spelling of `0` or `-1`, on an element
+`old` of a list that is not a list itself (`q0 ++ [idx i]` is its position): lookup returns `old`; `delete` and `pop`
+through that spelling are `delete` / `pop` of the canonical path `…h[i]` — the element is removed (`delAt`, later
+elements shift down), with `recursively=True` followed by `pruneUp` over the real ancestors; `pop` returns `old`. -/
+theorem C05_delete_hidden_list_elem (cls : Cls) (kvs : List (Str × Val)) (q0 : Pos) (i : Nat) (old d : Val) (e : IdxSp)
+    (fuel : Nat)
+    (hp : PlainPos (q0 ++ [Seg.idx i])) (hget : getAt (.dict cls kvs) (q0 ++ [Seg.idx i]) = some old)
+    (hs : isList old = false) (he : e.val = 0 ∨ e.val = -1) (hf : fuel ≥ 2 * (q0.length + 1) + 1) :
+    ∃ t', delAt (.dict cls kvs) (q0 ++ [Seg.idx i]) = some t' ∧
+      getItem fuel (.dict cls kvs) (slash ++ renderPos (q0 ++ [Seg.idx i]) ++ bracket e.text) = (.dict cls kvs, .ok old) ∧
+      delete fuel (.dict cls kvs) (slash ++ renderPos (q0 ++ [Seg.idx i]) ++ bracket e.text) false = (t', .ok ()) ∧
+      delete fuel (.dict cls kvs) (slash ++ renderPos (q0 ++ [Seg.idx i]) ++ bracket e.text) true
+        = (pruneUp t' q0 q0.length, .ok ()) ∧
+      pop fuel (.dict cls kvs) (slash ++ renderPos (q0 ++ [Seg.idx i]) ++ bracket e.text) d false = .ok (t', old) ∧
+      pop fuel (.dict cls kvs) (slash ++ renderPos (q0 ++ [Seg.idx i]) ++ bracket e.text) d true
+        = .ok (pruneUp t' q0 q0.length, old) ∧
+      ∀ r, delete fuel (.dict cls kvs) (slash ++ renderPos (q0 ++ [Seg.idx i]) ++ bracket e.text) r
+        = delete fuel (.dict cls kvs) (slash ++ renderPos (q0 ++ [Seg.idx i])) r := by
+  have hne : q0 ++ [Seg.idx i] ≠ [] := by simp
+  have hf' : fuel ≥ 2 * (q0 ++ [Seg.idx i]).length := by simp; omega
+  obtain ⟨t', ht', hdel⟩ := C05_delete cls kvs _ old hp hne hget fuel hf'
+  have hrec := C05_delete_recursive cls kvs _ old t' fuel hp hne hget ht' hf'
+  simp only [List.dropLast_concat, List.length_append, List.length_cons, List.length_nil, Nat.zero_add,
+    Nat.add_sub_cancel] at hrec
+  have hd := delete_hidden_elem cls kvs q0 i old e fuel
+  have hpop := pop_hidden_elem cls kvs q0 i old d e fuel
+  refine ⟨t', ht', getItem_hidden_elem cls kvs q0 i old e fuel hp hget hs he hf, ?_, ?_, ?_, ?_,
+    fun r => hd r hp hget hs he hf⟩
+  · rw [hd false hp hget hs he hf, hdel]
+  · rw [hd true hp hget hs he hf, hrec]
+  · rw [hpop false hp hget hs he hf, hdel]
+  · rw [hpop true hp hget hs he hf, hrec]
+
+/-- non-vacuity on `exHidden`: `//h[1][last()]` is the element `{x: 1}` of `h`; `h[2]` shifts into its place -/
+example : slash ++ renderPos ([.key ['h']] ++ [Seg.idx 1]) ++ bracket IdxSp.last.text
+    = ['/', '/', 'h', '[', '1', ']', '[', 'l', 'a', 's', 't', '(', ')', ']'] := by decide
+example : ∃ t', delAt exHidden [.key ['h'], .idx 1] = some t' ∧
+    getItem 40 exHidden ['/', '/', 'h', '[', '1', ']', '[', 'l', 'a', 's', 't', '(', ')', ']']
+      = (exHidden, .ok (.dict .n0 [(['x'], .int 1)])) ∧
+    delete 40 exHidden ['/', '/', 'h', '[', '1', ']', '[', 'l', 'a', 's', 't', '(', ')', ']'] false = (t', .ok ()) ∧
+    pop 40 exHidden ['/', '/', 'h', '[', '1', ']', '[', 'l', 'a', 's', 't', '(', ')', ']'] (.str ['D']) true
+      = .ok (pruneUp t' [.key ['h']] 1, .dict .n0 [(['x'], .int 1)]) :=
+  let ⟨t', h1, h2, h3, _, _, h6, _⟩ := C05_delete_hidden_list_elem .n0 _ [.key ['h']] 1 (.dict .n0 [(['x'], .int 1)]) (.str ['D'])
+    .last 40 ⟨pk 'h', trivial⟩ rfl rfl (Or.inr rfl) (by decide)
+  ⟨t', h1, h2, h3, h6⟩
+/-- the same instance evaluated (the real code: `d.pop('//h[1][last()]', 'D', recursively=True)` returns `{'x': 1}` and
+leaves `h: [1, {}]`) -/
+example : pop 40 exHidden ['/', '/', 'h', '[', '1', ']', '[', 'l', 'a', 's', 't', '(', ')', ']'] (.str ['D']) true
+    = .ok (.dict .n0 [(['a'], .int 1), (['o'], .dict .n0 [(['p'], .dict .n0 [(['q'], .int 1)])]),
+        (['h'], .list .n0 [.int 1, .dict .n0 []])], .dict .n0 [(['x'], .int 1)]) := by decide
 
 end N0.C05
